@@ -776,6 +776,14 @@ func (ctx Ctx) callExpr(s *ast.CallExpr) coq.Expr {
 	if ctx.isBuiltinIdent(s.Fun, "uint8") || ctx.isBuiltinIdent(s.Fun, "byte") {
 		return ctx.integerConversion(s, s.Args[0], 8)
 	}
+	if ctx.isBuiltinIdent(s.Fun, "int") || ctx.isBuiltinIdent(s.Fun, "uint") {
+		// int and uint are modelled as 64-bit words: a narrower operand has to
+		// be widened (a 64-bit operand is left as it is, below)
+		if info, ok := getIntegerType(ctx.typeOf(s.Args[0])); ok &&
+			!info.isUntyped && info.width != 64 {
+			return ctx.integerConversion(s, s.Args[0], 64)
+		}
+	}
 	if ctx.isBuiltinIdent(s.Fun, "panic") {
 		msg := "oops"
 		if e, ok := s.Args[0].(*ast.BasicLit); ok {
